@@ -356,7 +356,7 @@ func c01Forgery(r *mc.Run, c *mc.Ctx, base *c01base, lv []int, nl int) {
 	qeAltered := c.Choose("qealtered", 3)
 	bodySigForm := c.Choose("bodysigform", 5)
 	qeSigForm := c.Choose("qesigform", 5)
-	resize := c.Choose("resize", 3)
+	resize := c.Choose("resize", 6)
 	li := c.Free("level", nl)
 	id := "forge/" + c.ID() + world.LogTag()
 	if !r.Want(id) {
@@ -475,6 +475,10 @@ func c01Forgery(r *mc.Run, c *mc.Ctx, base *c01base, lv []int, nl int) {
 	case 2:
 		v := uint16(len(p.Auth) + 1)
 		p.AuthSize = &v
+	case 3, 4, 5:
+		// NUL octets appended to the QE authentication data (every size field follows): the data as carried is no
+		// longer what the QE report vouches for
+		p.Auth = append(append([]byte(nil), p.Auth...), make([]byte, map[int]int{3: 1, 4: 32, 5: 224}[resize])...)
 	}
 	raw, _ := p.Bytes()
 
